@@ -90,9 +90,9 @@ Lemma stepB_ver : forall s t s', InvA s -> InvB s -> step s t = Some s' ->
 Proof.
   intros s t s' IA IB H. pose proof (b_ver _ IB) as Hv.
   step_cases H; specs; intros ix; simp; gs; try apply Hv.
-  - right. eapply (b_pend _ IB); eauto.
-  - left. reflexivity.
-  - destruct (Hv ix); [left; assumption | right; lia].
+  all: try (left; reflexivity).
+  all: try (right; eapply (b_pend _ IB); eauto; fail).
+  destruct (Hv ix); [left; assumption | right; lia].
 Qed.
 
 Lemma stepB_pend : forall s t s', InvA s -> InvB s -> step s t = Some s' ->
